@@ -95,3 +95,8 @@ pub proof fn axiom_vec_line_len(v: &Vec<crate::line::Line>)
     ensures
         v@.len() <= MEM_MAX,
 {}
+
+pub assume_specification<T: Default>[ core::mem::take ](dest: &mut T) -> (r: T)
+    ensures
+        r == *old(dest),
+        call_ensures(T::default, (), *final(dest));
